@@ -370,8 +370,21 @@ class Report:
         replay = None
         if self.violations:
             replay = os.path.join(VERIF, "replays", f"{self.prop}-{self.tier}-{seed()}.json")
+            sigs = {}
+            for v in self.violations:
+                k = json.dumps(v["signature"], sort_keys=True)
+                sigs[k] = sigs.get(k, 0) + 1
+            # keep one example per signature first, then fill up
+            firsts, seen = [], set()
+            for v in self.violations:
+                k = json.dumps(v["signature"], sort_keys=True)
+                if k not in seen:
+                    seen.add(k)
+                    firsts.append(v)
+            rest = [v for v in self.violations if v not in firsts][:max(0, 200 - len(firsts))]
             with open(replay, "w") as f:
-                json.dump({"property": self.prop, "violations": self.violations[:200]}, f, indent=1)
+                json.dump({"property": self.prop, "signatures": [{"signature": json.loads(k), "count": n} for k, n in sigs.items()],
+                           "violations": firsts[:400] + rest}, f, indent=1)
         ev = {
             "property_id": self.prop, "tier": self.tier, "seed": seed(), "level": self.level,
             "coverage": self.cov, "assumptions": self.assumptions,
